@@ -125,6 +125,13 @@ func LedgerProbe(i int, h interop.Hash256) {
 	st := ledger.GetTransactionVMState(h)
 	storage.Put(storage.GetContext(), []byte("led"), []byte{byte(r), byte(th + 1), byte(st)})
 }
+func LedgerProbe3(i int, k int) {
+	r := 0
+	if ledger.GetTransactionFromBlock(i, k) != nil {
+		r = 1
+	}
+	storage.Put(storage.GetContext(), []byte("led3"), []byte{byte(r)})
+}
 func LedgerProbe2(i int, h interop.Hash256) {
 	r := 0
 	if ledger.GetBlock(i) != nil {
@@ -598,6 +605,10 @@ func (g *Gen) one() *transaction.Transaction {
 			m = "ledgerProbe2"
 		}
 		tx = g.tx(sa, c, m, idx, old.BytesBE())
+		if g.R.Intn(3) == 0 {
+			// a transaction of the block by position: positions at and beyond the end, blocks at and beyond the horizon
+			tx = g.tx(sa, c, "ledgerProbe3", idx, int64(g.R.Intn(4)))
+		}
 	case "natcfg":
 		switch g.R.Intn(5) {
 		case 0:
